@@ -56,7 +56,7 @@ def run(case):
 
 @st.composite
 def cases(draw, tier):
-    spec = draw(GP.mixed_pda_specs(max_states=3 if tier == "quick" else 4, max_trans=7))
+    spec = draw(GP.mixed_pda_specs(max_states=3 if tier == "quick" else 4, max_trans=7, odd=True))
     # bias: make some state accepting so that there is something to accept
     if not spec["F"] and draw(st.booleans()):
         spec["F"] = [spec["Q"][-1]]
